@@ -2,6 +2,7 @@ package wh
 
 import (
 	"fmt"
+	"github.com/btcsuite/btcd/btcec/v2"
 	"math/rand"
 	"sort"
 	"time"
@@ -142,6 +143,44 @@ func (f *Funded) receipt(rg *rand.Rand, coinbase bool) (*wire.MsgTx, *Coin, erro
 	}
 	c := &Coin{Op: wire.OutPoint{Hash: tx.TxHash(), Index: 0}, Out: tx.TxOut[0], Scope: sc, Acct: acct, Height: -1, Coinbase: coinbase}
 	return tx, c, nil
+}
+
+// FundImportedKey imports a fresh private key into the given scope (imported-keys
+// account) and pays it n confirmed coins.
+func (f *Funded) FundImportedKey(rg *rand.Rand, sc waddrmgr.KeyScope, n int) error {
+	kb := make([]byte, 32)
+	rg.Read(kb)
+	kb[0] |= 1
+	priv, _ := btcec.PrivKeyFromBytes(kb)
+	wif, err := btcutil.NewWIF(priv, f.Params, true)
+	if err != nil {
+		return err
+	}
+	st := f.W.Manager.SyncedTo()
+	bs := &st // not older than what the wallet has seen: no birthday change
+	addrStr, err := f.W.ImportPrivateKey(sc, wif, bs, false)
+	if err != nil {
+		return fmt.Errorf("ImportPrivateKey: %w", err)
+	}
+	a, err := btcutil.DecodeAddress(addrStr, f.Params)
+	if err != nil {
+		return err
+	}
+	f.Chain.Barrier()
+	var txs []*wire.MsgTx
+	for i := 0; i < n; i++ {
+		tx := f.PayTo(a, int64(60000+rg.Intn(300000)))
+		txs = append(txs, tx)
+		f.Coins[wire.OutPoint{Hash: tx.TxHash(), Index: 0}] = &Coin{Op: wire.OutPoint{Hash: tx.TxHash(), Index: 0}, Out: tx.TxOut[0], Scope: sc, Acct: waddrmgr.ImportedAddrAccount, Height: -1}
+	}
+	f.Chain.Extend(txs...)
+	ht := f.Chain.Height()
+	f.Chain.NotifyConnect(int(ht))
+	for _, tx := range txs {
+		f.Coins[wire.OutPoint{Hash: tx.TxHash(), Index: 0}].Height = ht
+	}
+	f.Chain.Barrier()
+	return nil
 }
 
 func (f *Funded) Tip() int32 { return f.Chain.Height() }
